@@ -205,7 +205,7 @@ func runC04(ctx *harness.Ctx) {
 	}
 	runStreams(ctx, streamOpts{
 		shortLen: ctx.Pick(3, 4), soup: ctx.Pick(1500, 30000), mutant: ctx.Pick(4000, 60000), nesting: ctx.Pick(30, 200),
-		valid: ctx.Pick(3000, 40000), unbalanced: ctx.Pick(3000, 40000), entriesPerSrc: 3,
+		valid: ctx.Pick(3000, 40000), unbalanced: ctx.Pick(3000, 40000), entriesPerSrc: 3, long: ctx.Pick(400, 6000),
 	}, fn)
 	if genExprSentence != nil {
 		// operand kind x operator matrix: generated expressions under every operator form
